@@ -17,6 +17,12 @@ The space is cut into sub-universes, each enumerated completely:
   UA    forests <= 2 nodes, all 15 labels  x  every one-level query form over the large predicate set
   UF    forests 0..2 nodes, 12 falsy / boundary labels (name "", attributes 0, "", None, three mixed attributes,
         a matching attribute before a raising one)  x  one- and two-level queries built for them
+  UL    one node, name a, EVERY attribute tuple of <= 3 values over {"x", 1, ["x"], {"k": 1}} (list / dict valued =
+        unhashable attributes, as from_dict keeps them for nested lists; the matching attribute in every position
+        relative to them)  x  (name, q) / (name, q0, q1) over all ordered pairs of 10 alternatives (plain literals,
+        list / dict literals, predicates, raw callables) / (name, q0, q1, q2) over all ordered triples of 6 / any_ / all_
+  UL2   forests = 2 nodes over the tuples of <= 2 such values  x  10 one-level and 25 (thorough 100) two-level queries
+  ULEP  the UL documents built with Entry and through from_dict  x  select / find / [] with two-alternative tuples
   U1    forests <= 3 nodes, 6 labels       x  all one- and two-level queries over the medium level set
   U2    forests  = 4 nodes, 6 labels       x  all one- and two-level queries over the reduced level set
   UA3   forests  = 3 nodes, all 15 labels  x  (thorough) every one-level query form over the quick predicate set
@@ -32,6 +38,15 @@ The space is cut into sub-universes, each enumerated completely:
                                               document and a Result over several documents; two-step histories
                                               on ONE document / ONE Result object (query, then query again,
                                               also with the identical python query objects)
+
+  UR    re-parenting histories in ONE process: every forest <= 3 nodes (thorough 4) over names a, b is built as a
+        document and asked for roots (6 first steps: nothing, select / find with roots=True, .root of every node,
+        Result.roots), its nodes are then moved into another document through the public API the combiners and tree
+        builders use (Entry(children=...) wrap, nesting under a new section, twice in a row with a query in between,
+        split over two documents, spliced in place of a top-level / nested include node by insights.core.flatten
+        after ConfigCombiner's children.extend) and the NEW document is queried (12 select / find queries with roots,
+        .root of every node, Result.roots); the oracle is the reference model applied to the FINAL tree (read back
+        through children lists): the ultimate ancestor is the container of the document that holds the node NOW
 
 UA..U3 run compile_queries() once per query and the module-level select() per (forest, options): that is
 literally the body of Entry.select, and it keeps the cost at ~15-20 us per case; UEP goes through the
@@ -64,7 +79,10 @@ LEVEL = "exploration"
 RULE = ("every (forest, query, deep, roots, entry point) of the stated sub-universes, each enumerated completely; "
         "every predicate of depth <= 2 over the atoms on every node value. A tree case is non-trivial when the "
         "query discriminates in that tree (some evaluated node matched and some evaluated node was rejected); "
-        "a predicate case is non-trivial when the predicate is not constant over the value universe")
+        "a predicate case is non-trivial when the predicate is not constant over the value universe; a re-parenting "
+        "history (document, first roots query, re-parenting method, judged query) is non-trivial when a roots query "
+        "preceded the re-parenting and the judged query has results; UL/ULEP: every attribute tuple of <= 3 values "
+        "with list / dict valued members x every ordered pair / triple of tuple-query alternatives")
 ASSUMPTIONS = [
     "ref/c20_query_model.py states the query semantics; its level-by-level and path-wise formulations are "
     "cross-checked on every enumerated case, its short-circuit and leaf-wise boolean evaluators on every "
@@ -77,6 +95,9 @@ ASSUMPTIONS = [
     "roots maps to the node reached by following parent links to the end (the document container for parsed documents)",
     "compile_queries()+select() is used for the bulk universes (the two-line body of Entry.select); the public "
     "methods are enumerated in UEP",
+    "after nodes were moved into another document the ultimate ancestor of a node is the container of the document whose "
+    "children lists reach it now (UR); list / dict valued attributes compare with == against literals, ordering predicates "
+    "and str methods raise on them; contains / isin are not asked about them",
     "bounded: no counterexample within the stated node / level / predicate-depth bounds over the stated alphabets",
 ]
 
@@ -87,10 +108,14 @@ VALUES = ["a", "b", "A", "x", "Y", 1, "ab", "", 0]      # names and attributes, 
 BOUNDS = {
     "quick": {"max_nodes": 4, "three_level_nodes": 5, "max_depth": 3, "deep_chain_depth": 60, "levels": 3,
               "predicate_depth": 2, "predicate_depth_mixed_case_spine": 3, "predicate_atoms": 8, "node_values": 9,
-              "labels_full": 15, "labels_reduced": 6, "labels_falsy": 12, "history_steps": 3},
+              "labels_full": 15, "labels_reduced": 6, "labels_falsy": 12, "history_steps": 3,
+              "unhashable_attr_values": 2, "unhashable_labels_attr_tuples_le3": 85, "tuple_query_alternatives": 3,
+              "reparent_forest_nodes": 3, "reparent_methods": 6, "reparent_first_steps": 6, "reparent_judged_queries": 14},
     "thorough": {"max_nodes": 5, "three_level_nodes": 5, "max_depth": 3, "deep_chain_depth": 60, "levels": 3,
                  "predicate_depth": 2, "predicate_depth_mixed_case_spine": 3, "predicate_atoms": 16, "node_values": 9,
-                 "labels_full": 15, "labels_reduced": 6, "labels_falsy": 12, "history_steps": 3},
+                 "labels_full": 15, "labels_reduced": 6, "labels_falsy": 12, "history_steps": 3,
+                 "unhashable_attr_values": 2, "unhashable_labels_attr_tuples_le3": 85, "tuple_query_alternatives": 3,
+                 "reparent_forest_nodes": 4, "reparent_methods": 6, "reparent_first_steps": 6, "reparent_judged_queries": 14},
 }
 CAP_S = {"quick": 240, "thorough": 3000}
 
@@ -1091,7 +1116,7 @@ def units(tier, seed):
     for build in ("entry", "from_dict"):
         for i in range(2):
             us.append({"u": "ULEP", "build": build, "fs": [i, 2]})
-    n = 4 if tier == "quick" else 12
+    n = 10 if tier == "quick" else 24
     for i in range(n):
         us.append({"u": "UR", "fs": [i, n]})
     return us
@@ -1102,7 +1127,8 @@ def unit_weight(u):
         return 4
     if u["u"] == "UEP":
         return 3 if u["build"] == "nginx" else 2
-    return {"BOOL": 2, "U2": 2, "U2B": 2}.get(u["u"], 1)
+    # the cheap history / unhashable-attribute units go first: under a wall-clock cap on a loaded machine they are done
+    return {"BOOL": 2, "U2": 2, "U2B": 2, "UR": 9, "ULEP": 8, "UL": 7, "UL2": 7}.get(u["u"], 1)
 
 
 # ---- exploration ---------------------------------------------------------------------------------------
@@ -1863,7 +1889,10 @@ TECHNIQUE = ("bounded exhaustive enumeration of forests x multi-level queries x 
 LEVEL_TEXT = ("Every forest within the node bound, every query of the stated forms and every option combination is executed "
               "against the real code and the returned node identities are compared with a reference model (level-wise and "
               "path-wise formulations agree on every case). The query language is compositional, so the space is cut into "
-              "sub-universes that are each enumerated completely; no sampling decides anything.")
+              "sub-universes that are each enumerated completely; no sampling decides anything. Attribute tuples with unhashable "
+              "(list / dict) members are enumerated with the matching attribute in every position against multi-alternative "
+              "tuple queries; three-step histories (roots query, re-parenting through Entry(children=...) / flatten, roots "
+              "query on the new document) are enumerated over all documents <= 3 nodes.")
 LEVEL_NOTE = ("Trusted: ref/c20_query_model.py (readings written at its top); bounded by nodes <= 4/5, depth <= 3, <= 3 levels, "
               "predicate depth <= 2 (3 on a mixed-case spine), the stated name/attribute alphabets; Entry.where, choose, "
               "upto, nth (the statement names select/find/[]), shared sub-trees and zero-level select() are not covered.")
